@@ -216,6 +216,9 @@ m("C16", "compression/zstd.py", "                    if not decompressor.eof:\n 
 m("C17", "data/codec.py", "                    data = decoder.decode(b'', final=True)\n                    observer.on_next(data)", "                    pass", "fire", ["CD-1"])
 m("C17", "data/codec.py", "def decode(encoding='utf8', incremental=True):", "def decode(encoding='utf8', incremental=False):", "fire", ["CD-1"])
 # ---------------------------------------------------------------- C18
+m("C18", "container/csv.py", "    body = t[:-1]\n    return (len(body) - len(body.rstrip(escapechar))) % 2 == 0", "    return len(t) < 2 or t[-2] != escapechar", "fire", ["CS-3"], "the merger defect repaired by 8fba40d, re-introduced (one escape character looked at instead of the parity of the run)")
+m("C18", "container/csv.py", "    return (len(body) - len(body.rstrip(escapechar))) % 2 == 0", "    return (len(body) - len(body.rstrip(escapechar))) % 2 == 1", "fire", ["CS-3"], "parity inverted")
+m("C18", "container/csv.py", "    return (len(body) - len(body.rstrip(escapechar))) % 2 == 0", "    return (len(t) - 1 - len(body.rstrip(escapechar))) % 2 != 1", "silent")
 m('C18', 'io/file.py', 'while not disposed and len(data) > 0:', 'while not disposed and len(data) > 1:', 'fire', ['FR-3', 'FH-1'], 'hand mutant: last 1-byte chunk lost')
 m('C18', 'io/file.py', 'while not disposed and len(data) > 0:', 'while not disposed and len(data) >= size:', 'fire', ['FR-3', 'FH-1'], 'hand mutant: short last chunk lost')
 m('C18', 'io/file.py', 'while not disposed and len(data) > 0:', 'while not disposed and data:', 'silent')
@@ -224,9 +227,9 @@ m('C18', 'io/file.py', '                else:\n                    read_data(fil
 m('C18', 'io/file.py', '            def on_completed():\n                if type(file) is str:\n                    f.close()\n', '            def on_completed():\n', 'fire', ['FR-3', 'FH-1'], 'hand mutant: file never closed on completion')
 m('C18', 'io/file.py', '            def on_completed():\n                if type(file) is str:\n                    f.close()\n', '            def on_completed():\n                f.close()\n', 'fire', ['FR-3', 'FH-1'], "hand mutant: closes caller's file object")
 m('C18', 'io/file.py', '                if type(file) is str:\n                    f.close()\n                observer.on_completed()', '                observer.on_completed()\n                if type(file) is str:\n                    f.close()', 'fire', ['FR-3', 'FH-1'], 'hand mutant: closed after completion')
-m('C18', 'container/csv.py', '            elif len(t) > 0 and t[0] == \'"\' and t[-1] == \'"\' and t[-2] != escapechar and agg is None:', '            elif len(t) < 0 and t[0] == \'"\' and t[-1] == \'"\' and t[-2] != escapechar and agg is None:', 'fire', ['CS-3'], 'hand mutant: complete quoted piece opens a field')
-m('C18', 'container/csv.py', '            elif len(t) > 0 and t[0] == \'"\' and t[-1] == \'"\' and t[-2] != escapechar and agg is None:', '            elif len(t) >= 0 and t[0] == \'"\' and t[-1] == \'"\' and t[-2] != escapechar and agg is None:', 'fire', ['CS-3'], 'hand mutant: index beyond an empty piece')
-m('C18', 'container/csv.py', '            elif len(t) > 0 and t[-1] == \'"\' and t[-2] != escapechar and agg is not None:', '            elif len(t) > 0 and t[-1] == \'"\' and agg is not None:', 'fire', ['CS-3'], 'hand mutant: escaped quote closes the field')
+m('C18', 'container/csv.py', '            elif len(t) > 0 and t[0] == \'"\' and ends_with_closing_quote(t, escapechar) and agg is None:', '            elif len(t) < 0 and t[0] == \'"\' and ends_with_closing_quote(t, escapechar) and agg is None:', 'fire', ['CS-3'], 'hand mutant: complete quoted piece opens a field')
+m('C18', 'container/csv.py', '            elif len(t) > 0 and t[0] == \'"\' and ends_with_closing_quote(t, escapechar) and agg is None:', '            elif len(t) >= 0 and t[0] == \'"\' and ends_with_closing_quote(t, escapechar) and agg is None:', 'fire', ['CS-3'], 'hand mutant: index beyond an empty piece')
+m('C18', 'container/csv.py', '            elif ends_with_closing_quote(t, escapechar) and agg is not None:', '            elif len(t) > 0 and t[-1] == \'"\' and agg is not None:', 'fire', ['CS-3'], 'hand mutant: escaped quote closes the field')
 m('C18', 'container/csv.py', '            elif len(t) > 0 and t[0] == \'"\' and agg is None:', '            elif len(t) > 0 and t[-1] == \'"\' and agg is None:', 'fire', ['CS-3'], 'hand mutant: field opened by a trailing quote')
 m('C18', 'container/csv.py', '            elif len(t) > 0 and t[0] == \'"\' and agg is None:', '            elif len(t) > 1 and t[0] == \'"\' and agg is None:', 'silent')
 m("C18", "container/csv.py", "                        f = f.replace(escapechar, f'{escapechar}{escapechar}')\n", "", "fire", ["CS-1"])
@@ -282,6 +285,20 @@ def apply_unified_diff(patch_text, read_file):
         if mobj and cur is not None:
             start = max(int(mobj.group(1)) - 1, 0)
             st = out[cur]
+            # like git apply, tolerate a line offset (the file changed elsewhere since the patch was written): the hunk's
+            # old lines are looked for at the stated position first, then at the nearest position where they match
+            j = k + 1
+            old_seq = []
+            while j < len(lines) and not lines[j].startswith("@@") and not lines[j].startswith("diff --git") and not lines[j].startswith("--- "):
+                hh = lines[j]
+                if not hh.startswith("\\") and not hh.startswith("+"):
+                    old_seq.append(hh[1:] if hh else "")
+                j += 1
+            if old_seq and not st.get("added") and st["old"][start:start + len(old_seq)] != old_seq:
+                cands = [q for q in range(st["pos"], len(st["old"]) - len(old_seq) + 1) if st["old"][q:q + len(old_seq)] == old_seq]
+                if not cands:
+                    return None
+                start = min(cands, key=lambda q: abs(q - start))
             if start < st["pos"]:
                 return None
             st["new"] += st["old"][st["pos"]:start]
